@@ -215,6 +215,8 @@ def import_package(sm, pkg_ast):
     for a in pkg_ast.get("abstract", []):
         sm.abstract.setdefault(a.lower(), [])
     for t in pkg_ast.get("types", []):
+        if t["name"].lower() in sm.types or t["name"].lower() in sm.abstract:
+            raise KeyError("type name %r cannot be redefined" % t["name"])
         add_type(sm, t)
 
 
@@ -465,6 +467,8 @@ def _ref_load(ast, resources, main_url, packages, env, sm, pinned=None):
             stack.append(_Frame(sm.types[tname], name, slot, (lineno, url)))
             stats["sections"] += 1
             stats["nested"] = max(stats["nested"], len(stack) - 1)
+            if not sm.types[tname].items and slot.wild:
+                stats["childless_sections"] = stats.get("childless_sections", 0) + 1
             if tname in imported_types:
                 stats["imported_types_used"] += 1
             continue
